@@ -8,9 +8,10 @@ fn add(table: &str, first: i64, last: i64, reps: &[(&PeerSpec, i32)]) -> Op {
     Op::Add { ks: "kx".into(), table: table.into(), first, last, replicas: reps.iter().map(|(p, s)| (p.host, *s)).collect() }
 }
 fn refresh(peers: &[PeerSpec], kss: &[KsSpec]) -> Op {
-    Op::Refresh { peers: peers.to_vec(), keyspaces: kss.to_vec() }
+    Op::Refresh { peers: peers.to_vec(), keyspaces: kss.to_vec(), partial: false }
 }
 
+#[derive(Clone)]
 pub struct Scenario {
     pub name: &'static str,
     pub class: &'static str,
@@ -102,6 +103,29 @@ pub fn all() -> Vec<Scenario> {
         ops.push(refresh(&p, &[]));
         out.push(Scenario { name: "schema-changes", class: "maint:keyspace-not-tablet-drops", peers: p.clone(), keyspaces: kss.clone(), ops });
     }
+    // twins: every refresh that leaves the schema as it is becomes a partial topology refresh
+    // (the driver re-reads only the peers); the expected outcome is the same
+    let twins: Vec<Scenario> = out
+        .iter()
+        .filter_map(|s| {
+            let mut cur = s.keyspaces.clone();
+            let mut changed = false;
+            let mut t = s.clone();
+            for op in t.ops.iter_mut() {
+                if let Op::Refresh { keyspaces, partial, .. } = op {
+                    if *keyspaces == cur {
+                        *partial = true;
+                        changed = true;
+                    } else {
+                        cur = keyspaces.clone();
+                    }
+                }
+            }
+            t.name = Box::leak(format!("{}(partial-topology-refresh)", s.name).into_boxed_str());
+            changed.then_some(t)
+        })
+        .collect();
+    out.extend(twins);
     out
 }
 
@@ -118,6 +142,9 @@ pub fn run(ctx: &Ctx) -> Outcome {
             Ok(_) => {
                 o.class(s.class);
                 o.class(&format!("scenario:{}", s.name));
+                if s.ops.iter().any(|op| matches!(op, Op::Refresh { partial: true, .. })) {
+                    o.class("maint:partial-topology-refresh");
+                }
             }
             Err((i, f)) => report(&mut o, &format!("scenario {}", s.name), i, &f, &s.peers, &s.keyspaces, &s.ops, &[]),
         }
